@@ -74,8 +74,8 @@ var stmts = []item{
 	{"define-then-closure", "z := x\n;;\ngz := func() int { return z * 2 }\n;;\nz++\n;;\nShow(\"gz\", gz(), z)", []string{"x"}, ""},
 	// tuple definitions (multi-value call, comma-ok, several values) whose variables are captured by a closure / pointer and
 	// then partly REdeclared by a later tuple definition: the redeclared name stays the same variable
-	{"tuple-redeclare-call", "dm := func(a, b int) (int, int) { return a / b, a % b }\n;;\nta, tb := dm(29+x, 3)\n;;\nget := func() int { return ta }\n;;\nta, tc := dm(39, 3)\n;;\nShow(\"t\", ta, tb, tc, get())", []string{"x"}, ""},
-	{"tuple-redeclare-ptr", "dm := func(a, b int) (int, int) { return a / b, a % b }\n;;\nua, ub := dm(17+x, 5)\n;;\npu := &ua\n;;\nua, uc := dm(40, 7)\n;;\n*pu += 100\n;;\nShow(\"u\", ua, ub, uc, *pu)", []string{"x"}, ""},
+	{"tuple-redeclare-call", "dmc := func(a, b int) (int, int) { return a / b, a % b }\n;;\nta, tb := dmc(29+x, 3)\n;;\nget := func() int { return ta }\n;;\nta, tc := dmc(39, 3)\n;;\nShow(\"t\", ta, tb, tc, get())", []string{"x"}, ""},
+	{"tuple-redeclare-ptr", "dmp := func(a, b int) (int, int) { return a / b, a % b }\n;;\nua, ub := dmp(17+x, 5)\n;;\npu := &ua\n;;\nua, uc := dmp(40, 7)\n;;\n*pu += 100\n;;\nShow(\"u\", ua, ub, uc, *pu)", []string{"x"}, ""},
 	{"tuple-redeclare-values", "va, vb := x, 2\n;;\ngv := func() int { return va + vb }\n;;\nva, vc := 10, 20\n;;\nShow(\"v\", va, vb, vc, gv())", []string{"x"}, ""},
 	{"tuple-commaok", "mv, ok := m[\"a\"]\n;;\ngm := func() int { return mv }\n;;\nmv, ok2 := m[\"zz\"]\n;;\nShow(\"mv\", mv, ok, ok2, gm())", []string{"m"}, ""},
 	// closures created by a loop of a top-level statement, called by later statements
